@@ -163,6 +163,29 @@ func scenarioCorpus() []scenario {
 			k.W.Edit("rmdir", "dir", nil)
 			k.W.Write("a.txt", []byte("dirty\n"))
 		}, fixed("reset", "--hard", "HEAD@{1}")},
+		{"reset-hard-to-empty-files", func(k *Walker) {
+			// the snapshot reset to tracks EMPTY files where the working tree holds content (an absorbed read failure
+			// yields "no bytes", which looks like exactly that content)
+			k.Init()
+			k.W.Write("e.txt", []byte{})
+			k.W.Write("dir/e2.txt", []byte{})
+			commitBase(k)
+			k.W.Goit("add", "e.txt", "dir/e2.txt")
+			k.W.Goit("commit", "-m", "with empty files")
+			k.W.Write("e.txt", []byte("filled in the second commit\n"))
+			k.W.Write("dir/e2.txt", []byte("also\n"))
+			k.W.Goit("add", "e.txt", "dir/e2.txt")
+			k.W.Goit("commit", "-m", "filled")
+			k.W.Write("e.txt", []byte("local junk that reset --hard must discard\n"))
+		}, fixed("reset", "--hard", "HEAD@{1}")},
+		{"restore-empty-file", func(k *Walker) {
+			k.Init()
+			k.W.Write("e.txt", []byte{})
+			commitBase(k)
+			k.W.Goit("add", "e.txt")
+			k.W.Goit("commit", "-m", "with an empty file")
+			k.W.Write("e.txt", []byte("local junk\n"))
+		}, fixed("restore", "e.txt")},
 		{"restore-file", func(k *Walker) { k.Init(); commitBase(k); k.W.Write("a.txt", []byte("dirty\n")) }, fixed("restore", "a.txt")},
 		{"restore-deleted-dir", func(k *Walker) { k.Init(); commitBase(k); k.W.Edit("rmdir", "dir", nil) }, fixed("restore", "dir")},
 		{"restore-staged", func(k *Walker) {
